@@ -77,6 +77,18 @@ def handlers : List (String × Handler) := [
         ("ps", ratsToJson [st.psRow, st.psCol]),
         ("sbs", match st.hint with | some h => ratToJson h | none => Json.null)]))
     | _, _ => throw "d of 3 vectors and s of 3 expected"),
+  ("storeTiled", fun j => do
+    let d ← getV3List j "d"
+    let s ← getRatList j "s"
+    match d, s with
+    | [d0, d1, d2], [s0, s1, s2] =>
+      let t := storeTiled ⟨d0, d1, d2, s0, s1, s2, ← getV3 j "p"⟩
+      pure (okJson (Json.mkObj [
+        ("origin", v3ToJson t.origin),
+        ("ios", ratsToJson [t.rowCos.x, t.rowCos.y, t.rowCos.z, t.colCos.x, t.colCos.y, t.colCos.z]),
+        ("ps", ratsToJson [t.psRow, t.psCol]),
+        ("sbs", match t.sbs with | some h => ratToJson h | none => Json.null)]))
+    | _, _ => throw "d of 3 vectors and s of 3 expected"),
   ("storeAligned", fun j => do
     let iop ← getRatList j "iop"
     let ps ← getRatList j "ps"
